@@ -1,3 +1,223 @@
 import Anytree.Spec.Resolver
+import Anytree.Lemmas.Resolver
+/-!
+# C07 — Resolver.get returns the node a path denotes and fails cleanly when none exists
+-/
 namespace Anytree.Props.C07
+open Anytree Tree Str Resolver Spec ResolverLemmas
+variable {α : Type}
+
+/-- the component loop is the component-by-component walk; with `relax` a failing step gives `None` -/
+theorem getLoop_eq_walk (c : Ctx α) (parts : List String) (a : Addr) :
+    getLoop c parts a =
+      (match walkPath c parts a with
+       | .ok n => .ok (some n)
+       | .error e => if c.relax then .ok none else .error e) := by
+  induction parts generalizing a with
+  | nil => simp [getLoop, walkPath]
+  | cons p ps ih =>
+    simp only [getLoop, walkPath, stepS]
+    by_cases h1 : (p == "..") = true
+    · simp only [h1, if_true]
+      by_cases h2 : a = []
+      · simp [h2]
+      · simp only [h2, if_false]; exact ih _
+    · simp only [h1]
+      by_cases h3 : (p == "" || p == ".") = true
+      · simp only [h3, if_true]; exact ih _
+      · simp only [h3, getChild]
+        cases (c.children a).find? (fun ch => cmp c.ignorecase (c.name ch) p) with
+        | none => simp
+        | some ch => simp only []; exact ih _
+
+/-- **mirror = specification** for every tree, start node and path string, for a non-empty
+separator.  (For `sep = ""` — where Python's `str.split` raises `ValueError`, so the model is outside
+its domain — `startsWith` always holds and `split` returns one piece, the mirror takes the
+"cannot happen" branch and raises even with `relax`, whereas `getS` returns `None`.) -/
+theorem get_eq_spec (c : Ctx α) (hsep : c.sep ≠ "") (a : Addr) (path : String) :
+    Resolver.get c a path = Spec.getS c a path := by
+  unfold Resolver.get start getS getStrictS
+  by_cases hs : startsWith path c.sep = true
+  · simp only [hs, if_true]
+    cases hd : (split c.sep path).drop 1 with
+    | nil => exact absurd hd (split_drop_one_ne_nil _ _ hsep hs)
+    | cons p0 rest =>
+      simp only []
+      by_cases h0 : (p0 == "") = true
+      · simp only [h0, if_true]; cases c.relax <;> simp
+      · simp only [h0]
+        by_cases h1 : (!cmp c.ignorecase (c.name []) p0) = true
+        · simp only [h1, if_true]; cases c.relax <;> simp
+        · simp only [h1]; exact getLoop_eq_walk c rest []
+  · simp only [hs]; exact getLoop_eq_walk c _ a
+
+/-- `relax=True` returns `None` in exactly the cases where strict mode raises, and never raises
+(non-empty separator, see `get_eq_spec`) -/
+theorem get_relaxed (c : Ctx α) (hsep : c.sep ≠ "") (a : Addr) (path : String) :
+    Resolver.get { c with relax := true } a path =
+      (match Resolver.get { c with relax := false } a path with
+       | .ok r => .ok r
+       | .error _ => .ok none) := by
+  rw [get_eq_spec { c with relax := true } hsep, get_eq_spec { c with relax := false } hsep]
+  unfold getS
+  rw [getStrictS_relax c true, getStrictS_relax c false]
+  cases getStrictS c a path <;> simp
+
+/-- the error is that of the first failing component: `..` above the root ↦ RootResolverError on the
+root, an unknown child ↦ ChildResolverError on the node reached so far -/
+theorem walk_error_class (c : Ctx α) (parts : List String) (a : Addr) (e : RErr)
+    (h : walkPath c parts a = .error e) :
+    ∃ pre p post b, parts = pre ++ p :: post ∧ walkPath c pre a = .ok b ∧ stepS c b p = .error e ∧
+      ((p = ".." ∧ b = [] ∧ e = .root []) ∨ (e = .child b p ∧ getChild c b p = none)) := by
+  induction parts generalizing a with
+  | nil => simp [walkPath] at h
+  | cons p ps ih =>
+    simp only [walkPath] at h
+    cases hstep : stepS c a p with
+    | ok b' =>
+      rw [hstep] at h
+      obtain ⟨pre, p', post, b, h1, h2, h3, h4⟩ := ih b' h
+      refine ⟨p :: pre, p', post, b, by simp [h1], ?_, h3, h4⟩
+      simp only [walkPath, hstep]; exact h2
+    | error e' =>
+      rw [hstep] at h
+      simp only [Except.error.injEq] at h
+      subst h
+      refine ⟨[], p, ps, a, rfl, rfl, hstep, ?_⟩
+      unfold stepS at hstep
+      by_cases h1 : (p == "..") = true
+      · simp only [h1, if_true] at hstep
+        by_cases h2 : a = []
+        · subst h2
+          simp only [if_true, Except.error.injEq] at hstep
+          left
+          exact ⟨by simpa using h1, rfl, hstep.symm⟩
+        · simp [h2] at hstep
+      · simp only [h1] at hstep
+        by_cases h3 : (p == "" || p == ".") = true
+        · simp [h3] at hstep
+        · simp only [h3] at hstep
+          right
+          unfold getChild
+          cases hf : (c.children a).find? (fun ch => cmp c.ignorecase (c.name ch) p) with
+          | none => rw [hf] at hstep; simp at hstep; exact ⟨hstep.symm, rfl⟩
+          | some ch => rw [hf] at hstep; simp at hstep
+
+/-- a valid address and its children -/
+def Valid (c : Ctx α) (a : Addr) : Prop := (sub c.r a).isSome = true
+
+/-- every name used as a path component is usable: not empty, not `.`/`..` (those spellings are
+reserved by the first sentence of the property) -/
+def NamesUsable (c : Ctx α) : Prop := ∀ a, Valid c a → a ≠ [] → c.name a ≠ "" ∧ c.name a ≠ "." ∧ c.name a ≠ ".."
+
+/-- a prefix of a valid address is valid -/
+theorem Valid.prefix {c : Ctx α} {a b : Addr} (h : Valid c (a ++ b)) : Valid c a :=
+  sub_isSome_prefix c.r a b h
+
+/-- one step down: the name of the valid child `a ++ [i]` leads from `a` to that child -/
+theorem step_child (c : Ctx α) (hu : SiblingUnique c) (hn : NamesUsable c) (a : Addr) (i : Nat)
+    (hv : Valid c (a ++ [i])) (hrefl : ∀ s, cmp c.ignorecase s s = true) :
+    stepS c a (c.name (a ++ [i])) = .ok (a ++ [i]) := by
+  obtain ⟨h1, h2, h3⟩ := hn (a ++ [i]) hv (by simp)
+  have hmem := mem_children c a i hv
+  unfold stepS
+  have e1 : (c.name (a ++ [i]) == "..") = false := by simpa using h3
+  have e2 : (c.name (a ++ [i]) == "" || c.name (a ++ [i]) == ".") = false := by simp [h1, h2]
+  simp only [e1, e2, Bool.false_eq_true, if_false]
+  cases hf : (c.children a).find? (fun ch => cmp c.ignorecase (c.name ch) (c.name (a ++ [i]))) with
+  | none =>
+    have := List.find?_eq_none.mp hf (a ++ [i]) hmem
+    simp [hrefl] at this
+  | some y =>
+    have hy := List.find?_some hf
+    have hym := List.mem_of_find?_eq_some hf
+    simp only
+    rw [hu a y (a ++ [i]) hym hmem hy]
+
+/-- **downward**: from `a`, the names along a valid address `a ++ b` lead to `a ++ b`, when sibling
+names are unique under the resolver's comparison -/
+theorem walk_down (c : Ctx α) (hu : SiblingUnique c) (hn : NamesUsable c) (a b : Addr)
+    (hv : Valid c (a ++ b)) (hrefl : ∀ s, cmp c.ignorecase s s = true) :
+    walkPath c (((prefixes b).drop 1).map (fun p => c.name (a ++ p))) a = .ok (a ++ b) := by
+  induction b generalizing a with
+  | nil => simp [prefixes, walkPath]
+  | cons i b ih =>
+    have hv' : Valid c ((a ++ [i]) ++ b) := by simpa using hv
+    have hvi : Valid c (a ++ [i]) := hv'.prefix
+    rw [prefixes_cons_drop]
+    simp only [List.map_cons, walkPath, step_child c hu hn a i hvi hrefl, List.map_map]
+    have := ih (a ++ [i]) hv'
+    simp only [List.append_assoc, List.singleton_append] at this
+    exact this
+
+/-- **upward**: `k` times `..` from an address of length ≥ k climbs `k` levels -/
+theorem walk_up (c : Ctx α) (a : Addr) (k : Nat) (hk : k ≤ a.length) :
+    walkPath c (List.replicate k "..") a = .ok (a.take (a.length - k)) := by
+  induction k generalizing a with
+  | zero => simp [walkPath]
+  | succ k ih =>
+    have hne : a ≠ [] := by intro h; subst h; simp at hk
+    simp only [List.replicate_succ, walkPath, stepS, beq_self_eq_true, if_true, hne, if_false]
+    rw [ih a.dropLast (by simp; omega)]
+    congr 1
+    rw [List.dropLast_eq_take, List.take_take]
+    congr 1
+    simp; omega
+
+/-- `walkPath` over a concatenation -/
+theorem walk_append (c : Ctx α) (p q : List String) (a : Addr) :
+    walkPath c (p ++ q) a = (match walkPath c p a with | .ok b => walkPath c q b | .error e => .error e) := by
+  induction p generalizing a with
+  | nil => simp [walkPath]
+  | cons x xs ih =>
+    simp only [List.cons_append, walkPath]
+    cases stepS c a x with
+    | ok b => simp only []; exact ih _
+    | error e => simp
+
+/-- **get(m, relative path spelled from Walker.walk(m, n)) = n**, on component lists
+(validity of the start node `m` is not needed: `..` steps never look at the tree) -/
+theorem walk_relParts (c : Ctx α) (hu : SiblingUnique c) (hn : NamesUsable c)
+    (hrefl : ∀ s, cmp c.ignorecase s s = true) (m n : Addr) (hm : Valid c m) (hv : Valid c n) :
+    walkPath c (relParts c m n) m = .ok n := by
+  have _ := hm
+  unfold relParts
+  simp only
+  obtain ⟨r1, h1⟩ := WalkerLemmas.lcp2_prefix_left m n
+  obtain ⟨r2, h2⟩ := WalkerLemmas.lcp2_prefix_right m n
+  generalize lcp2 m n = k at h1 h2
+  subst h1 h2
+  rw [walk_append, walk_up _ _ _ (by simp)]
+  have e : (k ++ r1).take ((k ++ r1).length - ((k ++ r1).length - k.length)) = k := by
+    have : (k ++ r1).length - ((k ++ r1).length - k.length) = k.length := by simp
+    rw [this]; simp
+  simp only [e]
+  rw [below_append, List.map_map]
+  exact walk_down c hu hn k r2 hv hrefl
+
+/-- **get(m, absolute path of n) = n**, on component lists: after the root component, the names
+below the root lead to `n` from the root, whatever the start node -/
+theorem walk_absParts (c : Ctx α) (hu : SiblingUnique c) (hn : NamesUsable c)
+    (hrefl : ∀ s, cmp c.ignorecase s s = true) (n : Addr) (hv : Valid c n) :
+    walkPath c (namesBelow c n) [] = .ok n := by
+  have := walk_down c hu hn [] n (by simpa using hv) hrefl
+  simpa [namesBelow] using this
+
+/-- `cmp` is reflexive (so the hypothesis above always holds) -/
+theorem cmp_refl (ic : Bool) (s : String) : cmp ic s s = true := by
+  unfold cmp; cases ic <;> simp
+
+/-- splitting a joined path gives the components back, for a single-character separator that
+occurs in no component -/
+theorem split_join_single (sepc : Char) (parts : List String) (hne : parts ≠ [])
+    (hfree : ∀ p ∈ parts, sepc ∉ p.toList) :
+    split (String.singleton sepc) ((String.singleton sepc).intercalate parts) = parts := by
+  cases parts with
+  | nil => exact absurd rfl hne
+  | cons p ps =>
+    unfold split
+    rw [← String.length_toList, String.toList_intercalate, String.toList_singleton, List.map_cons]
+    rw [splitAux_join sepc _ _ _ [] (by simpa using hfree) (Nat.le_refl _)]
+    simp [Function.comp_def]
+
 end Anytree.Props.C07
